@@ -14,6 +14,7 @@ type vSrc struct {
 	name  string
 	whole bool // no chunking nondeterminism
 	one   bool // one byte per read
+	eofWith bool // deliver the last bytes together with io.EOF (allowed by the io.Reader contract)
 }
 
 func (s *vSrc) Read(p []byte) (int, error) {
@@ -44,6 +45,9 @@ func (s *vSrc) Read(p []byte) (int, error) {
 	}
 	copy(p, s.data[s.pos:s.pos+n])
 	s.pos += n
+	if s.eofWith && s.pos >= len(s.data) {
+		return n, io.EOF
+	}
 	return n, nil
 }
 
